@@ -73,7 +73,7 @@ class ArrayUfunc(Family):
             exp = lambda q: apply_binary("subtract", g.D.fn(q), g2.D.fn(q))
             ctx.prove("post.second operand not modified", z3.BoolVal(g2.D.buf.writes == 0))
         else:
-            col = SymArr.symbolic("col", (g.n, 1), "elem", np.int64, assume_len=False)
+            col = SymArr.symbolic("col", (g.n, 1), "elem", np.float64, assume_len=False)
             calls = {}
 
             def broadcast_stub(self_, values, dtype=None):
@@ -95,6 +95,8 @@ class ArrayUfunc(Family):
             finally:
                 RaggedArray._broadcast_rows = old
             ctx.prove("post.column handed to _broadcast_rows", z3.BoolVal(calls.get("values") is col))
+            ctx.prove("post.column broadcast in numpy's result dtype of the operands (not the receiver's dtype)",
+                      z3.BoolVal(calls.get("dtype") is not None and np.dtype(calls["dtype"]) == np.result_type(np.int64, np.float64)))
             r, c = g.row(), z3.Int("c")
             ctx.skolem(z3.And(0 <= c, c < g.L(r)))
             ctx.add_index(c)
